@@ -90,6 +90,7 @@ class Net:
         self.next_id = 0
         self.dgram_lens = []
         self.healed = False
+        self.drop_filter = None      # optional callable (who, emitted record) -> True to lose that datagram
 
     def ep(self, who):
         return self.A if who == "client" else self.B
@@ -156,6 +157,8 @@ class Net:
     def _transmit(self, who, idx):
         r, c = self.rng, self.cfg
         dst = self.other(who)
+        if self.drop_filter is not None and self.drop_filter(who, self.emitted[who][idx]):
+            return                      # targeted loss (scenario-controlled), also while healed
         if self.healed:
             self.flight.append((self.t + c.get("healed_delay", 0), dst, idx))
             return
